@@ -45,6 +45,7 @@ def components():
     add('dx', lambda i: [('n%d' % i, I(1)), ('d%d' % i, D(BIN('mul', F('n%d' % i), C(2))))])
     add('dl', lambda i: [('n%d' % i, I(1)), ('d%d' % i, D(BIN('add', F('n%d' % i), C(1)), sp='lambda'))])
     add('dm', lambda i: [('n%d' % i, I(1)), ('d%d' % i, D(BIN('sub', C(2), F('n%d' % i))))])
+    add('dnz', lambda i: [('n%d' % i, I(1)), ('d%d' % i, D(['call', 'nonzero', F('n%d' % i)], sp='lambda'))])     # the callback raises a bare ValueError() for 0
     add('m0', lambda i: [('d%d' % i, DM(b'\x00'))])
     add('mab', lambda i: [('d%d' % i, DM(b'ab'))])
     add('m0i', lambda i: [('d%d' % i, DM(b'\x00', incl=True))])
